@@ -32,6 +32,7 @@ def _run_one(args):
                             fails.append({'probe': p.name, 'at': i, **f})
                 except RecursionError:
                     out.append('undef')
+                    fails.append({'probe': 'undef', 'at': i, 'what': 'listing or time query recurses without bound'})
                     break
                 except progs.NonDyadic as e:
                     out.append(f'EXC:NonDyadic:{e}')
